@@ -796,11 +796,17 @@ class Explorer:
     if r == z3.unknown:
       # the incremental (push/pop) core gave up: retry the same formula with a fresh non-incremental solver, which uses
       # z3's tactic-based arithmetic and is often much stronger on mixed integer/real problems
-      fresh = z3.Solver()
-      fresh.set("timeout", self.query_timeout_ms)
-      fresh.add(*self.solver.assertions())
-      fresh.add(*extra)
-      r = fresh.check()
+      # (z3's search is sensitive to term numbering, which depends on what the worker process did before: a query that
+      # takes 0.3 s on its own was seen to time out once inside a full run -- so the retry is repeated with other seeds)
+      for seed in (0, 11, 23):
+        fresh = z3.Solver()
+        fresh.set("timeout", self.query_timeout_ms)
+        fresh.set("random_seed", seed)
+        fresh.add(*self.solver.assertions())
+        fresh.add(*extra)
+        r = fresh.check()
+        if r != z3.unknown:
+          break
       self.fallback_queries = getattr(self, "fallback_queries", 0) + 1
       if r == z3.sat and not extra:
         self._fallback_model = fresh.model()
